@@ -36,7 +36,7 @@ import (
 
 // ProbeKinds lists the operations probed.
 // BurstKinds are the operations of C05's cold-start bursts (the probe kinds plus the preview).
-var BurstKinds = append(append([]string{}, ProbeKinds...), "previewcr3")
+var BurstKinds = append(append([]string{}, ProbeKinds...), "previewcr3", "zoneconflict", "zoneconflict")
 
 var ProbeKinds = []string{"gray444", "gray420", "grayrgba", "phash", "dct2d", "dct64", "dct256", "dct2d256", "f64dct", "blurhash", "ahash", "decode", "parse", "parsexmp", "tagname", "sniff"}
 
@@ -171,6 +171,21 @@ func probeOp(kind string, seed uint64) func() string {
 				return fmt.Sprint(t1, e1, t2, e2, t1.String(), t1.Extension(), imagetype.FromString(t1.String()))
 			}
 		}
+	case "zoneconflict":
+		// one numeric offset in two spellings ("+05:00" and "+04:60"), the goroutines of a burst
+		// alternating between them (the burst's seeds are base*64+g): whoever creates the cached
+		// zone first, each call must report the spelling of its own file
+		base, g := seed/64, seed%64
+		h := 1 + int(base%13)
+		sp := fmt.Sprintf("+%02d:00", h)
+		if g%2 == 1 {
+			sp = fmt.Sprintf("+%02d:60", h-1)
+		}
+		if base%5 == 0 {
+			sp = map[bool]string{false: "+00:00", true: "-00:00"}[g%2 == 1]
+		}
+		data := c05ZoneFile(core.NewRng(base, 0x20e), [3]string{sp, sp, sp})
+		return func() string { return exifObs(imagemeta.DecodeTiff(mon.NewRS(data))) }
 	case "previewcr3":
 		mk := func() []byte {
 			t, _, _ := gen.SynthPayload(r, r.Bool(), 1)
